@@ -114,6 +114,11 @@ def run_case(case):
             with dask.config.set({"dataframe.shuffle.method": it["method"]}):
                 mine[str(i)] = observe(b.out_dx)
             built[i] = b
+            try:
+                vals_ = b.eval_pd()
+                it["_persist_unordered"] = any(st_["op"] == "persist" and not vals_[st_["in"][0]].order for st_ in it["prog"]["steps"])
+            except Exception:
+                it["_persist_unordered"] = False
             sets["expr_classes"].update(c for c, _ in mine[str(i)]["logical"])
             sets["expr_classes"].update(c for c, _ in mine[str(i)]["optimized"])
         except Exception as ex:
@@ -165,6 +170,11 @@ def run_case(case):
                 a, t = mine.get(str(i)), theirs.get(str(i))
                 if not a or not t or "error" in a or "error" in t:
                     bump("program_errors_in_one_process")
+                    continue
+                if items[i].get("_persist_unordered"):
+                    # a persisted value is named after its data; where the program leaves the row order undefined two processes
+                    # may persist differently ordered rows
+                    bump("skipped_persist_of_unordered")
                     continue
                 bump("programs_compared_across_processes")
                 bump("names_compared", len(a["logical"]) + len(a["optimized"]))
